@@ -1053,3 +1053,6 @@ Example ex_valid_stream :
   run (hdr ++ [0; 79; 66; 46; 5; 0; 0; 0; 0; 0; 0; 0] ++ jumbo_hdr 2 0 0 0 ++ [7; 7]) zero_junk false =
   Run VEnd [(8, 12, 5); (20, 18, 10)].
 Proof. vm_compute. reflexivity. Qed.
+
+Lemma loaded_inv bs junk u st : load_obs bs junk u = Loaded st -> s_active st = true -> inv st.
+Proof. intros H Ha. destruct (load_obs_inv _ _ _ _ H) as (_&_&_&_&_&_&Hi&_). exact (Hi Ha). Qed.
